@@ -294,7 +294,8 @@ class _DirectedSystem(_DynamicalSystem):
 
         # Avoid closing over `self` to keep Numba happy
         def _rhs_impl(t: float, y: np.ndarray, _base_rhs=base_rhs, _fwd=fwd, _flip=flip_idx) -> np.ndarray:
-            dy = _base_rhs(t, y)
+            # Backward propagation runs on the unsigned time s = -t: dy/ds = -f(-s, y)
+            dy = _base_rhs(t if _fwd == 1 else -t, y)
             if _fwd == -1:
                 if _flip is None:
                     return -dy
